@@ -78,12 +78,12 @@ pub fn seq_case_n(text: &str, n: usize, bridged: bool, seq: &[usize], fresh: &mu
     if let Some(last) = seq.last() {
         if fresh[*last].is_none() {
             match run_seq(&parser, bridged, &[*last], n) {
-                Ok((_, _, mut nm)) => fresh[*last] = Some(as_multiset(&nm.remove(0))),
+                Ok((_, _, mut nm)) => fresh[*last] = Some(nm.remove(0)),
                 Err(m) => return vec![("fresh:panic".into(), format!("{} in {} on a fresh object", m, CALL_NAMES[*last]))],
             }
         }
         let want = fresh[*last].as_ref().unwrap();
-        let got = as_multiset(norms.last().unwrap());
+        let got = norms.last().unwrap().clone();
         if &got != want {
             out.push((
                 "history:answer-differs".into(),
@@ -133,7 +133,7 @@ fn decode_seq(mut k: u64, len: usize) -> Vec<usize> {
 pub fn run_c11(run: &Run) {
     writers_selfcheck();
     run.set_rule("(a) store level: the breadth-first exploration of the store (see C06) with the memo invariant evaluated on every transition through the cfg(adf_obdd_verif) dump: every ite/restrict memo entry, variable list and cached count must be semantically right. (b) ADF level: for every ADF of A(2) and F(3,1), native and bridged, EVERY sequence of public calls up to the stated length from a 15-call alphabet (all semantics, counting, nogood search with four heuristics incl. seeded Rand, formula building and restriction on the shared diagram); the last answer must equal the answer of the same call on a fresh object (truth values, and functions of returned handles), every earlier answer must still read the same at the end, the memo tables must be right, and a second run of the sequence on another fresh object must reproduce all raw answers and the node table exactly. Non-trivial: sequences of length >= 2.");
-    run.assume("call sequences up to length 3 (quick) / 4 on A(2) (thorough); model lists are compared with the fresh object's as multisets (order is only asserted for the determinism clause)");
+    run.assume("call sequences up to length 3 (quick) / 4 on A(2) (thorough); model lists are compared with the fresh object's element by element, in the order in which they are produced");
     // (a)
     // an operation's answer must not depend on the history either: the result function is judged on every transition
     let flags = Flags { canonical: false, functions: true, memo: true, queries: false };
